@@ -34,6 +34,7 @@ type Out struct {
 	Distinct int64
 	rng      *rand.Rand
 	tier     string
+	seed     int64
 	dir      string
 	Viol     []map[string]string // harness-level violations (no model involved)
 	Known    map[string]string   // harness-level known findings: tag -> example
@@ -125,7 +126,7 @@ func main() {
 		os.Exit(2)
 	}
 	o := &Out{w: bufio.NewWriterSize(f, 1<<20), f: f, seen: map[string]bool{}, Stats: map[string]int64{},
-		Hist: map[string]map[string]int64{}, rng: rand.New(rand.NewSource(seed)), tier: tier, dir: dir,
+		Hist: map[string]map[string]int64{}, rng: rand.New(rand.NewSource(seed)), tier: tier, dir: dir, seed: seed,
 		Known: map[string]string{}}
 	fn, ok := props[prop]
 	if !ok {
